@@ -65,15 +65,16 @@ AbsFixed(f, cc, sp) ==
 Abstract(e) ==
   LET cc == ConvNamed(e, ConvName(e)) IN
   [ni |-> Len(cc.params), nf |-> Len(cc.fparams), base |-> RetAddrSlot(e.arch, e.sp.s),
-   fixed |-> [j \in 1..Len(e.fixed) |-> AbsFixed(e.fixed[j], cc, e.sp)]]
+   fixed |-> Vec([j \in 1..Len(e.fixed) |-> AbsFixed(e.fixed[j], cc, e.sp)])]      \* Vec: force the tuple
 \* parameter registers of a convention are pairwise different (so that "register i" is well defined)
 RegsDistinct(cc) ==
   /\ \A i, j \in 1..Len(cc.params) : i < j => cc.params[i] # cc.params[j]
   /\ \A i, j \in 1..Len(cc.fparams) : i < j => cc.fparams[i] # cc.fparams[j]
+\* (cfg' is Abstract(e) whenever the convention is known, see TNext)
 InputClass(e) ==
   /\ ConvKnown(e)
   /\ RegsDistinct(ConvNamed(e, ConvName(e)))
-  /\ Conforming(Abstract(e))
+  /\ Conforming(cfg')
 
 (***************************************************************************)
 (* Concretisation of the machine's answer and comparison with the result   *)
@@ -132,10 +133,10 @@ NoCfg == [ni |-> 0, nf |-> 0, base |-> 0, fixed |-> <<>>]
 TInit == l = 1 /\ Start(NoCfg)
 TNext == /\ l <= Len(Rec)
          /\ l' = l + 1
-         /\ IF ConvKnown(Rec[l])
-            THEN Run(Abstract(Rec[l]), EventArgs(Rec[l]))
-            ELSE Run(NoCfg, <<>>)
-         /\ IF EventOK(Rec[l]) THEN TRUE ELSE PrintT(<<"BAD", l, Rec[l].ev, Rec[l].src>>)
+         /\ \E e \in {Rec[l]} :
+              \E c \in {IF ConvKnown(e) THEN Abstract(e) ELSE NoCfg} :      \* evaluated once
+                /\ Run(c, IF ConvKnown(e) THEN EventArgs(e) ELSE <<>>)
+                /\ IF EventOK(e) THEN TRUE ELSE PrintT(<<"BAD", l, e.ev, e.src>>)
 Spec == TInit /\ [][TNext]_<<l, pvars>>
 Accepted == TLCGet("stats").diameter - 1 = Len(Rec)
 Post == IF Accepted THEN TRUE ELSE PrintT(<<"UNCONSUMED", TLCGet("stats").diameter>>) /\ FALSE
